@@ -114,6 +114,22 @@ def r1_order(ctx: Ctx, eng: Decider, leg: Decider) -> None:
                 ctx.check(not bad, 'C01.R1', f, f'build-loop:{src(s.iter)[:30]}', f'builder loop iterates {src(s.iter)[:40]} in order',
                           f'builder loop iterates {src(s.iter)[:60]!r} ({bad})', s)
     ctx.need(not (n_builders < 4), f'C01.R1: only {n_builders} order-preserving builders found (6 confirmed by hand)')
+    # (d) the CSV loader turns every row into a rule on its own: whether a row is kept must not depend on the rows before it
+    from ._rows import carried_containers, carried_names
+    f = proj.func('merchant_utils.load_merchant_rules')
+    fl = get_flow(proj, f)
+    row_loops = [s for s in fl.cfg.stmts() if isinstance(s, ast.For) and any(isinstance(n, ast.Call) and isinstance(n.func, ast.Attribute) and n.func.attr == 'append'
+                                                                               for st in s.body for n in ast.walk(st))]
+    if len(row_loops) != 1:
+        ctx.unknown('C01.R1', f, f'{len(row_loops)} row loops in load_merchant_rules')
+    lp = row_loops[0]
+    outs = {n.func.value.id for n in ast.walk(lp) if isinstance(n, ast.Call) and isinstance(n.func, ast.Attribute) and n.func.attr == 'append' and isinstance(n.func.value, ast.Name)}
+    cc = carried_containers(fl, lp, outs)
+    cn = {k: v for k, v in carried_names(fl, lp, outs).items() if k not in outs}
+    bad = sorted(set(cc) | set(cn))
+    ctx.check(not bad, 'C01.R1', f, 'row-independent', 'every CSV row becomes a rule independently of the rows before it',
+              f'{bad} carries information from one CSV row to the next: whether a row becomes a rule depends on earlier rows (e.g. a plain `COSTCO` row after `COSTCO[amount>200]` is dropped '
+              f'as a "duplicate", so what the first rule does not match falls through to Unknown)', (cc[bad[0]][0] if bad and bad[0] in cc else lp))
 
 
 def _reordering_expr(e) -> str:
